@@ -76,6 +76,9 @@ ApplyParse(m, o, e, obj, step) ==
   R(ParseF(m, phi0), o, f1 \o f2, 0)
 
 ApplyPastify(m, o, e, obj, step) ==
+  \* C08: a bound that is not a whole number of sampling periods may already be rejected by pastify() (which rewrites the
+  \* bounds); if pastify() accepts, the first evaluation must reject (clause units.nonmultiple in Apply)
+  IF StatusOf(obj) = "nonint" /\ e.exc = "RTAMT" THEN R(m, [o EXCEPT !.dead = TRUE], Ok, 0) ELSE
   IF CanPastify(m) THEN R(PastifyF(m, IF "ltl" \in DOMAIN obj THEN {"ltlDelay"} ELSE {}), o, ExcClass(TRUE, e, "pastify.exc", step), 0)
   ELSE R(m, o, ExcClass(FALSE, e, "pastify.exc", step), 0)
 
